@@ -4,3 +4,6 @@ open PgmVerif
 #print axioms PgmVerif.C12_cpdag_directed_sound
 #print axioms PgmVerif.C12_class_members
 #print axioms PgmVerif.isAcyclicG_sound
+#print axioms PgmVerif.C12_adjacent_never_separated
+#print axioms PgmVerif.C12_parents_separate
+#print axioms PgmVerif.C12_nonadjacent_separable
